@@ -37,6 +37,11 @@ def collapsed_graph(facts):
             if t is None:
                 continue        # closure construction: folded
             en, efn = root_name(facts, callee)
+            if en == cn and facts.fns[callee].kind == "Closure":
+                # a call *into* one of the function's own closures (a local helper closure, a callback handed to an adaptor
+                # and resolved): control stays inside the folded node; recursion through a closure shows up as the closure's
+                # own call of the enclosing function, which is kept
+                continue
             g[cn].add(en)
             sites.setdefault((cn, en), []).append((facts.fns[caller], t, bi))
     return g, sites
